@@ -20,6 +20,10 @@ EXPLANATION = (
   "both paths of Position.compute origin and position are stored from the same two lengths; (ORD-display) display=none returns "
   "None; (TAB-content) ISD regions admit exactly one body; (DSP-params) ISD.__init__ copies every document parameter "
   "Document defines; (ORD-lwsp) white-space processing then empty-span pruning run on every p / rt / rtc with children."
+  " (TYPE-GUARD) white-space handling and empty-span pruning start at p and at every rt, whatever its parent, and at no element inside a run;"
+  " (COMPUTED) prune-or-keep decisions after style computation read the computed style of the ISD element, never the specified style of the source element;"
+  " (TAB-compute-order) every compute() runs after the computes of the properties it reads;"
+  " (STATE-alias / STATE-global) no function of the anchored modules mutates a module- or class-level container, rebinds module / class state or mutates a mutable default argument, so a result never depends on earlier calls;"
 )
 RULE_TEXT = "per length-bearing property, per mutator call on ISD-owned values, per return site, per document parameter"
 UNDECIDED = ["white-space collapsing results", "emptiness pruning as semantics (no empty text node, no childless span)",
